@@ -23,10 +23,16 @@
 (*                  different groupings are observably different and to       *)
 (*                  predict the value of the prescribed one                   *)
 (*                                                                           *)
-(* Tokens are records [t |-> "opd"|"pre"|"bin"|"post", s |-> name]; `name'    *)
-(* is the operator's source text without white space (what the conformance   *)
-(* harness reads off the real parser's pairs).  TLC cannot index strings, so *)
-(* the pure operator symbols are given as sequences of characters.           *)
+(* Tokens are records [t |-> "opd"|"pre"|"bin"|"post", s |-> name, l |->       *)
+(* level, x |-> source text]; `name' is the operator's source text without   *)
+(* white space (what the conformance harness reads off the real parser's     *)
+(* pairs).  TLC cannot index strings, so the pure operator symbols are given *)
+(* with their sequences of characters.                                       *)
+(*                                                                           *)
+(* Two TLC facts shape the module: a definition is evaluated once and kept   *)
+(* only if no RECURSIVE operator is involved in it, and only if no formal    *)
+(* parameter in it is spelled like a state variable of the model that        *)
+(* extends this module (hence the models' variables are called vCase ...).   *)
 (***************************************************************************)
 EXTENDS Integers, Sequences, FiniteSets, SequencesExt, FiniteSetsExt, TLC
 
@@ -45,8 +51,6 @@ CatSep(ss, sep) == IF ss = <<>> THEN ""
 (* access, collect).  Sym = a pure operator symbol given with its            *)
 (* characters (takes part in Lex); Form = an operator that embeds operands   *)
 (* (`[i]', `$ init', `? type' ...): n = name without blanks, txt = source.   *)
-(* (No recursive operator may be used here: TLC evaluates a definition once  *)
-(* and keeps the value only if no RECURSIVE operator is involved.)           *)
 (***************************************************************************)
 Sym(n, cs, fix, lvl, src) ==
   [n |-> n, txt |-> n, cs |-> cs, fix |-> fix, lvl |-> lvl, src |-> src]
@@ -143,9 +147,12 @@ SrcText(tk) == tk.x
 (***************************************************************************)
 (* Well-formed token sequences: [pre] operand post* (bin [pre] operand       *)
 (* post* )*.  The grammar admits one prefix operator per operand.            *)
-(* Determined: inside one operand's postfix run the level-1 forms come       *)
-(* before the level-3 ones (`a ~ [i]' with a looser operator in front is a   *)
-(* shape on which a table alone says nothing; it is outside this module).    *)
+(* Determined: where a level-1 postfix form follows a level-3 postfix        *)
+(* operator (`a ~ [i]'), no prefix operator and no level-3 binary operator   *)
+(* stands in front of that operand.  In `- a ~ [i]' and `a @ b ~ [i]' the     *)
+(* tightest operator comes last and can only apply to everything before it,  *)
+(* so "split at the loosest operator" (Group) has no reading for them; the   *)
+(* module leaves these shapes out rather than prescribe one.                 *)
 (***************************************************************************)
 RECURSIVE WFFrom(_, _, _)
 WFFrom(ts, i, st) ==
@@ -160,7 +167,26 @@ WellFormed(ts) == Len(ts) > 0 /\ WFFrom(ts, 1, "E")
 
 Determined(ts) ==
   \A i \in 1..(Len(ts) - 1) :
-     ~(ts[i].t = "post" /\ ts[i + 1].t = "post" /\ Lvl(ts[i]) = 3 /\ Lvl(ts[i + 1]) = 1)
+     (ts[i].t = "post" /\ ts[i + 1].t = "post" /\ Lvl(ts[i]) = 3 /\ Lvl(ts[i + 1]) = 1) =>
+        LET j == Max({x \in 1..i : ts[x].t = "opd"})     \* the operand this postfix run belongs to
+        IN j = 1 \/ (ts[j - 1].t = "bin" /\ Lvl(ts[j - 1]) >= 4)
+
+\* Three shapes the table does not settle (outside this module):
+\*  `a ? ! b'   the documentation's level-1 form `? type' with the type `!' (never) competes with
+\*              the filter operator followed by NOT;
+\*  `a $ i - b', `a $ i * b'   the documentation gives `$ initial_value function' with an
+\*              expression as initial value, so a following `-' / `*' continues the initial value.
+\*  `a ? int | ! b'   `int | !' is a union type (`!' = never), so the type filter's type competes
+\*              with bitwise OR followed by NOT.
+UnsettledPrefixAfter(binName) == IF binName = "?" THEN {"!"}
+                                 ELSE IF binName = "$i" THEN {"-", "*"} ELSE {}
+Settled(ts) ==
+  /\ \A i \in 1..(Len(ts) - 1) :
+        (ts[i].t = "bin" /\ ts[i + 1].t = "pre") => ts[i + 1].s \notin UnsettledPrefixAfter(ts[i].s)
+  /\ \A i \in 1..(Len(ts) - 2) :
+        ~(ts[i].t = "post" /\ ts[i].s = "?int" /\ ts[i + 1].t = "bin" /\ ts[i + 1].s = "|"
+          /\ ts[i + 2].t = "pre" /\ ts[i + 2].s = "!")
+InDomain(ts) == WellFormed(ts) /\ Determined(ts) /\ Settled(ts)
 
 (***************************************************************************)
 (* Trees: every node keeps its token in `o'.                                 *)
@@ -198,17 +224,20 @@ Size(t) == CASE t.k = "leaf" -> 1
              [] OTHER -> 1 + Size(t.e)
 
 (***************************************************************************)
-(* 2. Group: split at the loosest operator; among operators of the loosest  *)
-(* level take the rightmost for left-associative levels and the leftmost    *)
-(* for right-associative ones.  On a well-formed determined sequence the    *)
-(* chosen operator is a binary operator, or a prefix operator in first      *)
-(* position, or a postfix operator in last position (GroupSplitOk).         *)
+(* 2. Group: split at the loosest operator that can be the root; among      *)
+(* those of the loosest level take the rightmost for left-associative       *)
+(* levels and the leftmost for right-associative ones.  GroupSplitOk: both  *)
+(* sides of every split are again well-formed.                              *)
 (***************************************************************************)
-OpPositions(ts) == {i \in 1..Len(ts) : IsOp(ts[i])}
-LoosestLevel(ts) == Max({Lvl(ts[i]) : i \in OpPositions(ts)})
+\* an operator can be the root only if it has room for its operands: a binary operator anywhere,
+\* a prefix operator in first position, a postfix operator in last position
+Candidates(ts) == {i \in 1..Len(ts) : \/ ts[i].t = "bin"
+                                        \/ (ts[i].t = "pre" /\ i = 1)
+                                        \/ (ts[i].t = "post" /\ i = Len(ts))}
+LoosestLevel(ts) == Max({Lvl(ts[i]) : i \in Candidates(ts)})
 SplitAt(ts) ==
   LET L == LoosestLevel(ts)
-      c == {i \in OpPositions(ts) : Lvl(ts[i]) = L}
+      c == {i \in Candidates(ts) : Lvl(ts[i]) = L}
   IN IF Assoc(L) = "right" THEN Min(c) ELSE Max(c)
 
 RECURSIVE Group(_)
